@@ -76,6 +76,19 @@ def gen_program(rng, cfg):
         spec["falsy_errors"] = True
     if (d // 6) % 3 == 0:
         spec["falsy_holder"] = True
+    if (d // 18) % 4 == 0:
+        # results that cannot be compared (== raises, like an array's): "const" results become such
+        def walk(steps):
+            for st in steps:
+                if st[0] in ("ret", "res") and st[1] == "const":
+                    st[1] = "oddeq"
+                elif st[0] == "try":
+                    walk(st[1])
+                    walk(st[3])
+                elif st[0] in ("with", "blk"):
+                    walk(st[-1])
+        for t in spec["templates"]:
+            walk(t["steps"])
     return spec
 
 
@@ -238,6 +251,88 @@ def motif_abandoned(rng):
     templates = [{"kind": "fn", "steps": root}, {"kind": "fn", "steps": mid}] + children
     return {"templates": templates, "root": {"tmpl": 0, "conv": rng.choice(["call", "value", "wrapped"])},
             "kinds": kinds, "svs": 2, "yield_only": True, "reentry": False,
+            "faults": {"items": {}, "flushes": {}, "ctx": {}}, "prio": gen_prio(rng, kinds)}
+
+
+def motif_cancel_scheduled(rng):
+    """A flush body cancels another kind's batch that is scheduled (tasks are blocked on it); the
+    cancelled batch keeps its items and, in a later selection round, outranks what is still
+    pending. The scheduler must drop it, not flush it, and resume the tasks blocked on it."""
+    nb = rng.randint(1, 3)
+    calls = [["call", 1, []]] + [["call", 2, []] for _ in range(nb)] + [["call", 3, []]]
+    rng.shuffle(calls)
+    root = [["y", [rng.choice(["t", "l"]), calls]]]
+    if rng.random() < 0.5:
+        root = [["try", root, "all", [["y", ["item", 2, rng.randint(0, 5)]]]]]
+    a = [["y", ["item", 0, rng.randint(0, 5)]]]
+    b = [["y", ["item", 1, rng.randint(0, 5)]]]
+    if rng.random() < 0.4:
+        b = [["try", b, "all", [["y", ["item", 2, rng.randint(0, 5)]]]]]
+    c = [["y", ["item", 2, rng.randint(0, 5)]] for _ in range(rng.randint(1, 2))]
+    templates = [{"kind": "fn", "steps": root}, {"kind": "fn", "steps": a}, {"kind": "fn", "steps": b}, {"kind": "fn", "steps": c}]
+    pol = rng.choice(["const", "intconst"])
+    return {"templates": templates, "root": {"tmpl": 0, "conv": rng.choice(["call", "value", "wrapped"])},
+            "kinds": 3, "svs": 1, "yield_only": True, "reentry": False,
+            "faults": {"items": {}, "flushes": {"0#1": {"cancel_kind": 1}}, "ctx": {}},
+            "prio": {"policy": pol, "vals": {"0": 2, "1": 1, "2": 0}, "hashes": {"order": [rng.randint(0, 7) for _ in range(5)]}}}
+
+
+def motif_wide(rng, kind):
+    """One yield of more than a thousand tasks that each wait for a request of the same batch
+    kind (a batch of 1000+ items), inside a context / NonAsyncContext / plain."""
+    n = rng.choice([1030, 1100, 1300])
+    inner = [["y", ["item", 0, rng.randint(0, 5)]]]
+    if kind == "ctx":
+        child = [["with", ["ctx"], inner]]
+    elif kind == "na":
+        child = [["with", ["na"], inner]]
+    else:
+        child = inner
+    templates = [{"kind": "fn", "steps": [["y", ["l", [["call", 1, []] for _ in range(n)]]]]},
+                 {"kind": "fn", "steps": child}]
+    return {"templates": templates, "root": {"tmpl": 0, "conv": rng.choice(["call", "value"])},
+            "kinds": 1, "svs": 1, "yield_only": True, "reentry": False, "tree_only": kind == "plain",
+            "faults": {"items": {}, "flushes": {}, "ctx": {}}, "prio": gen_prio(rng, 1)}
+
+
+def motif_unnested_ctx(rng):
+    """Two contexts of one task left in the order they were entered (enter A, enter B, leave A,
+    suspensions, leave B), next to sibling tasks."""
+    kinds = rng.randint(1, 2)
+
+    def items(m):
+        return [["y", ["item", rng.randint(0, kinds - 1), rng.randint(0, 5)]] for _ in range(m)]
+    victim = [["with2", ["ctx"], ["ctx"], items(rng.randint(0, 1)), items(rng.randint(1, 2))]] + items(rng.randint(0, 1))
+    if rng.random() < 0.3:
+        victim = [["with", ["ctx"], victim]]
+    sib = items(rng.randint(1, 3))
+    if rng.random() < 0.4:
+        sib = [["with", ["ctx"], sib]]
+    calls = [["call", 1, []], ["call", 2, []]]
+    rng.shuffle(calls)
+    templates = [{"kind": "fn", "steps": [["y", [rng.choice(["t", "l"]), calls]]]},
+                 {"kind": "fn", "steps": victim}, {"kind": "fn", "steps": sib}]
+    return {"templates": templates, "root": {"tmpl": 0, "conv": rng.choice(["call", "value", "wrapped"])},
+            "kinds": kinds, "svs": 1, "yield_only": True, "reentry": False, "ctx_fault": True,
+            "faults": {"items": {}, "flushes": {}, "ctx": {}}, "prio": gen_prio(rng, kinds)}
+
+
+def motif_sync_then_ctx(rng):
+    """A task makes a synchronous call that needs a flush, then - in the same step - enters a
+    context and is suspended inside it while sibling tasks run and batches are flushed."""
+    kinds = rng.randint(1, 2)
+
+    def items(m):
+        return [["y", ["item", rng.randint(0, kinds - 1), rng.randint(0, 5)]] for _ in range(m)]
+    victim = items(rng.randint(0, 1)) + [["s", ["call", 3, []], "call"],
+                                         ["with", rng.choice([["ctx"], ["ctx"], ["sv", 0, 7]]), items(rng.randint(1, 2))]]
+    sib = items(rng.randint(1, 3))
+    calls = [["call", 1, []], ["call", 2, []]]
+    rng.shuffle(calls)
+    templates = [{"kind": "fn", "steps": [["y", [rng.choice(["t", "l"]), calls]]]},
+                 {"kind": "fn", "steps": victim}, {"kind": "fn", "steps": sib}, {"kind": "fn", "steps": items(rng.randint(1, 2))}]
+    return {"templates": templates, "root": {"tmpl": 0, "conv": rng.choice(["call", "value", "wrapped"])},
+            "kinds": kinds, "svs": 1, "yield_only": False, "reentry": True,
             "faults": {"items": {}, "flushes": {}, "ctx": {}}, "prio": gen_prio(rng, kinds)}
 
 
